@@ -205,6 +205,26 @@ def handle (s : St) (op : String) (args : List Sexp) : Option (St × String) := 
         | .cell (.str s) => some (k, s)
         | _ => Option.none
       pure1 ("ok " ++ daRender (DA.relabel (← daOf d) m))
+  | "d.relabela", [d, arg, kw] =>
+      -- `d.relabel(arg, **kw)`: arg = N | S:affix | (FN name) | (D (old S:new)*) | (L S:name*)
+      let strMap : Sexp → Option (List (String × String)) := fun m => do
+        (← daOf m).items.mapM fun (k, v) => match v with
+          | .cell (.str s) => some (k, s)
+          | _ => Option.none
+      let a ← match arg with
+        | .atom "N" => some DA.RelArg.none
+        | .node [.atom "FN", .atom name] =>
+            (match name with
+             | "upper" => some (DA.RelArg.fn String.toUpper)
+             | "dbl" => some (DA.RelArg.fn fun k => k ++ k)
+             | "const" => some (DA.RelArg.fn fun _ => "z")
+             | "first" => some (DA.RelArg.fn fun k => (k.take 1).toString)
+             | "pre" => some (DA.RelArg.fn fun k => "q" ++ k)
+             | _ => Option.none)
+        | .node (.atom "D" :: _) => (strMap arg).map DA.RelArg.dict
+        | .node (.atom "L" :: _) => (strsOf arg).map DA.RelArg.names
+        | s => (strOf s).map DA.RelArg.affix
+      pure1 ("ok " ++ daRender (DA.relabelA (← daOf d) a (← strMap kw)))
   | "d.keys", [d] => pure1 (okList ((DA.keys (← daOf d)).map fun k => .cell (.str k)))
   | "h.new", [d] => let d ← daOf d; heapOp s (.new d.cls d.items) []
   | "h.copy", [h] => let h ← h.toNat?; heapOp s (.copy h) [h]
